@@ -1,5 +1,6 @@
 (** C14 — layouts are geometrically coherent and orientation-symmetric.
-    Statements only; every proof is [exact <lemma of Proofs/LayoutProofs.v>].
+    Statements only; every proof is [exact <lemma of Proofs/LayoutProofs.v or
+    Proofs/LayoutExtraProofs.v>].
 
     [layout o P S r sizes] (Model/Layout.v) is [layout.compute] for orientation [o],
     drawing parameters [P], species tree [S], reconciliation [r] and the measured node
@@ -7,9 +8,19 @@
     [sublayout]s shaped like [S] ([LNode s l r]: an internal species, its first and second
     child), [flatten] lists it in pre-order.  [tp]/[tr]/[t_ltree] exchange x and y
     (and width and height).  [rinside c p]: rectangle [c] lies inside [p];
-    [rdisjoint a b]: [a] and [b] have no common interior point; [roverlap]: they have. *)
-From Coq Require Import List Bool Arith QArith.
-From SR Require Import Base.PathB Model.Recon Model.Branches Model.Layout Proofs.ReconProofs Proofs.BranchesProofs Proofs.LayoutProofs.
+    [rdisjoint a b]: [a] and [b] have no common interior point; [roverlap]: they have.
+
+    Clause "computing the layout twice gives identical results": NO theorem.  The model is
+    a Coq function, so the clause is true of it by construction and says nothing about the
+    code; the model has no parameter standing for an iteration order either (species are
+    visited in the post-order [spost S] and branches in dict insertion order, both fixed by
+    the inputs).  The clause is checked on the implementation by the [twice_same] flag of
+    the correspondence batch only.
+
+    Examples (closed instances evaluated by the kernel): [C14_trunks_example],
+    [C14_mirror_example], and the refutation witness [C14_trunk_overlap_refuted]. *)
+From Coq Require Import List Bool Arith QArith Qminmax.
+From SR Require Import Base.PathB Model.Recon Model.Branches Model.Layout Proofs.ReconProofs Proofs.BranchesProofs Proofs.LayoutProofs Proofs.LayoutExtraProofs.
 Import ListNotations.
 Local Open Scope Q_scope.
 
@@ -20,6 +31,22 @@ Theorem C14_mirror : forall P S r sizes,
   layout Horizontal P S r sizes = option_map t_ltree (layout Vertical P S r (map tp sizes)).
 Proof. exact mirror. Qed.
 Print Assumptions C14_mirror.
+
+(* An instance of the mirror law on the input of C14_trunks_example below: both
+   orientations are defined, each side is evaluated separately by the kernel, and the
+   instance is not degenerate (swapping changes the sizes, transposing changes the layout,
+   the root box is not square). *)
+Example C14_mirror_example :
+  let S := SNode (SNode SLeaf SLeaf) SLeaf in
+  let r := RNode [] (RNode [false] (RNode [false] (RLeaf [false; false]) (RLeaf [false; true])) (RLeaf [false; false]))
+                 (RLeaf [true]) in
+  let sizes := [(12, 7); (9, 5); (3, 2); (10, 6); (8, 4); (5, 3); (6, 5); (11, 8)] in
+  exists tV, layout Vertical default_params S r (map tp sizes) = Some tV /\
+  layout Horizontal default_params S r sizes = Some (t_ltree tV) /\
+  map tp sizes <> sizes /\ t_ltree tV <> tV /\
+  ~ rw (l_rect (linfo tV)) == rh (l_rect (linfo tV)).
+Proof. exact mirror_example. Qed.
+Print Assumptions C14_mirror_example.
 
 (* For non-negative drawing parameters and node sizes, in both orientations: the boxes of
    the two child species of every internal species lie inside their parent's box ... *)
@@ -59,6 +86,56 @@ Theorem C14_trunk_overlap_refuted :
 Proof. exact trunk_overlap_refuted. Qed.
 Print Assumptions C14_trunk_overlap_refuted.
 
+(* A sufficient condition for the proviso that compares extents only.  [across o R] is the
+   extent of [R] across the growth direction (width when vertical, height when
+   horizontal); [narrow_at o P s l r']: the trunk of the internal species [s] exceeds
+   [min_subtree_spacing] by at most twice the extent of the narrower of its two child
+   boxes.  If this holds at every internal species, every trunk lies inside its own
+   species box ... *)
+Theorem C14_trunk_inside_sufficient : forall o P S r sizes t,
+  nonneg_params P -> Forall size_ok sizes -> layout o P S r sizes = Some t ->
+  (forall s l r', In (LNode s l r') (lsubtrees t) ->
+     across o (l_trunk s) <= mss P + 2 * Qmin (across o (l_rect (linfo l))) (across o (l_rect (linfo r')))) ->
+  forall s, In s (flatten t) -> rinside (l_trunk s) (l_rect s).
+Proof. exact trunks_inside_narrow. Qed.
+Print Assumptions C14_trunk_inside_sufficient.
+
+(* ... and therefore no two trunks overlap. *)
+Theorem C14_trunks_disjoint_narrow : forall o P S r sizes t,
+  nonneg_params P -> Forall size_ok sizes -> layout o P S r sizes = Some t ->
+  (forall s l r', In (LNode s l r') (lsubtrees t) ->
+     across o (l_trunk s) <= mss P + 2 * Qmin (across o (l_rect (linfo l))) (across o (l_rect (linfo r')))) ->
+  ForallOrdPairs (fun a b => rdisjoint (l_trunk a) (l_trunk b)) (flatten t).
+Proof. exact trunks_disjoint_narrow. Qed.
+Print Assumptions C14_trunks_disjoint_narrow.
+
+(* The hypotheses of the two trunk theorems are satisfiable on a non-trivial laid-out input:
+   species ((A,B)M,C)P, a valid reconciliation whose INTERNAL species M carries a
+   speciation, a full loss and a duplication branch, default parameters ([default_params]:
+   padding 4, branch spacing 5, trunk overhead 10, min subtree spacing 12, level spacing 4), eight positive
+   non-square sizes (exactly one per measured branch).  The layout is evaluated by the
+   kernel; every trunk lies inside its own box, the width condition holds at both
+   internal species, and the trunks are pairwise disjoint (by C14_trunks_disjoint_partial). *)
+Example C14_trunks_example :
+  let S := SNode (SNode SLeaf SLeaf) SLeaf in
+  let O := ONode (ONode (ONode (OLeaf [false; false] []) (OLeaf [false; true] [])) (OLeaf [false; false] []))
+                 (OLeaf [true] []) in
+  let r := RNode [] (RNode [false] (RNode [false] (RLeaf [false; false]) (RLeaf [false; true])) (RLeaf [false; false]))
+                 (RLeaf [true]) in
+  let sizes := [(12, 7); (9, 5); (3, 2); (10, 6); (8, 4); (5, 3); (6, 5); (11, 8)] in
+  valid_rec S O r /\
+  nonneg_params default_params /\ Forall size_ok sizes /\
+  (exists ops, all_ops S r = Some ops /\ length (measured ops (spost S)) = length sizes) /\
+  exists lay, layout Vertical default_params S r sizes = Some lay /\
+  (exists p m a b c, lay = LNode p (LNode m a b) c /\ map d_kind (l_branches m) = [KSpe; KLoss; KDup]) /\
+  (forall s, In s (flatten lay) -> rinside (l_trunk s) (l_rect s)) /\
+  (forall s l r', In (LNode s l r') (lsubtrees lay) ->
+     across Vertical (l_trunk s) <= mss default_params +
+       2 * Qmin (across Vertical (l_rect (linfo l))) (across Vertical (l_rect (linfo r')))) /\
+  ForallOrdPairs (fun a b => rdisjoint (l_trunk a) (l_trunk b)) (flatten lay).
+Proof. exact trunks_example. Qed.
+Print Assumptions C14_trunks_example.
+
 (* Every anchor referenced by a drawn branch exists.  In both orientations the anchors and
    branches of every species of the computed layout (pre-order) are keyed exactly by the
    anchor set and the branch dict that [_compute_branches] leaves for that species
@@ -89,10 +166,51 @@ Theorem C14_layout_defined : forall o P S O r sizes,
 Proof. exact layout_defined. Qed.
 Print Assumptions C14_layout_defined.
 
-(* The layout is a function of its inputs (the model has no hidden state; that the
-   implementation's second run equals its first is checked by the harness). *)
-Theorem C14_layout_function : forall o P S r sizes o' P' S' r' sizes',
-  o = o' -> P = P' -> S = S' -> r = r' -> sizes = sizes' ->
-  layout o P S r sizes = layout o' P' S' r' sizes'.
-Proof. exact layout_function. Qed.
-Print Assumptions C14_layout_function.
+(* The two defaults of the model are never taken on inputs Python can produce.
+
+   (1) [zip_sizes] pairs the branches of one species with the next measured sizes and reads
+   a MISSING size as [(0, 0)] (the [else Size(0, 0)] of [_layout_branches]).  Python's
+   [measure_nodes] returns one box per branch, so the size list is never too short; then
+   [zip_sizes] is the plain [combine] (which has no default) and hands the unread sizes on: *)
+Theorem C14_zip_sizes_no_default : forall bs sizes,
+  (length bs <= length sizes)%nat ->
+  zip_sizes bs sizes = (combine bs sizes, skipn (length bs) sizes).
+Proof. exact zip_sizes_total. Qed.
+Print Assumptions C14_zip_sizes_no_default.
+
+(* ... over all species ([measured ops order]: the branches of the species of [order], in
+   measuring order — [branch_nodes]): the measured list is [zip(branch_nodes, sizes)],
+   the i-th measured branch gets the i-th size ... *)
+Theorem C14_measure_no_default : forall ops order sizes,
+  (length (measured ops order) <= length sizes)%nat ->
+  flat_map snd (measure_all ops order sizes) = combine (measured ops order) sizes.
+Proof. exact measure_all_total. Qed.
+Print Assumptions C14_measure_no_default.
+
+(* ... and sizes beyond the number of measured branches are never read: a longer list (the
+   correspondence hands the model an upper bound) gives the layout of its prefix of exactly
+   one size per branch, the list Python produces.  Hence, with [n] the number of measured
+   branches, the theorems above quantify usefully over lists of length [n] only; on
+   shorter lists (which Python cannot produce) the model pads with [(0, 0)]. *)
+Theorem C14_extra_sizes_ignored : forall o P S r sizes ops n,
+  all_ops S r = Some ops -> (length (measured ops (spost S)) <= n)%nat ->
+  layout o P S r (firstn n sizes) = layout o P S r sizes.
+Proof. exact layout_firstn. Qed.
+Print Assumptions C14_extra_sizes_ignored.
+
+(* (2) [layout] reads the result of [_layout_branches] for a species through [pfind], with
+   [empty_slay] for a missing key.  Every species of [S] is a key (whenever no species
+   raised), in both orientations ... *)
+Theorem C14_pfind_no_default : forall sp ops S sizes lays,
+  all_species sp ops (measure_all ops (spost S) sizes) = Some lays ->
+  forall X, In X (snodes S) -> exists sl, pfind X lays = Some sl.
+Proof. exact pfind_no_default. Qed.
+Print Assumptions C14_pfind_no_default.
+
+(* ... and only species of [S] are looked up: [layout_with d] (Proofs/LayoutExtraProofs.v)
+   is [layout] with an arbitrary [d] in place of [empty_slay]; the result does not depend
+   on [d], for all inputs. *)
+Theorem C14_default_irrelevant : forall d o P S r sizes,
+  layout_with d o P S r sizes = layout o P S r sizes.
+Proof. exact layout_default_irrelevant. Qed.
+Print Assumptions C14_default_irrelevant.
